@@ -9,6 +9,15 @@ Model:   JsonValue.tla!MergeTree: objects are united recursively, anything else 
 TV:      random merge-capable types (structs, maps, pointers, slices, arrays, interfaces, scalars,
          tag options) with chains of 2..4 fitting texts containing nulls, missing and unknown
          members.
+MC:      spec/Arshal.tla!Unmarshal is the documented merge: null zeroes, scalars replace, a slice
+         holds exactly the new elements, arrays are overwritten, map entries and struct fields
+         not mentioned are kept and those mentioned are decoded into, pointers are allocated when
+         nil, a held interface value is decoded into.  MC_Arshal proves on the model for all
+         pairs of inputs of a bounded universe: j2 into (j1 into zero), whenever both succeed,
+         equals merge(j1, j2) into zero (MergeLaw; merge keeps number spellings), and that
+         unmentioned fields and entries are kept (FrameLaw).
+Replay:  every (type, pre-existing value, input, options) with the predicted success and the
+         predicted resulting Go value (nil-ness included), on the real Unmarshal.
 """
 
 
@@ -18,5 +27,12 @@ def run(ctx):
     s = ctx.tv("arshal", "Trace_Arshal", {"seed": ctx.seed, "n": n, "mode": "c14"}, consts={"MaxD": 10000})
     ctx.part("driver", **{k: v for k, v in s.items() if not k.startswith("_")})
     ctx.assumptions += ["equality of the two resulting Go values (nil/empty identified) is a projection fact", "raw values and byte slices are not merge-capable and are excluded from the type generator"]
+    # the type-directed model: Unmarshal into every pre-existing value of a bounded universe
+    import arshalfam as af
+    cand = af.HAND + af.random_types(ctx.seed, 60 if ctx.quick else 800)
+    D = 1
+    m = af.run_model(ctx, "into", af.within(cand, D, 400, 12000 if ctx.quick else 200000), {"u"}, "C14", D=D)
+    af.run_model(ctx, "mergelaw", af.within(cand, D, 10 ** 9, 15000 if ctx.quick else 250000), {"g"}, "C14", uopts=[af.O(), af.O(sn=True)], D=D)
+    ctx.assumptions.append("Arshal model universe: see C04; inputs are compact texts of a small grammar per type (fitting values, wrong kinds, nulls, unknown, duplicated and case-variant names, out-of-range numbers)")
     ctx.cov["distinct_nontrivial"] = n
     ctx.cov["rule"] = "random (type, j1..jk) tuples regenerated from logged seeds"
